@@ -38,6 +38,39 @@ CLAIMS = {
     ),
 }
 
+CLAIMS.update({
+    "C08": dict(
+        technique="MIR-based static analysis: discriminant-target tables of the event-log scans (F5), logging/replay/cursor pairing (F2), allocator-discipline analysis on shared solver handles, guard analysis of selector retirement and slot exhaustion (F4)",
+        text="Decides invalidation, logging and allocation shape clauses for all paths of the six dynamic solvers: every update variant of the event "
+        "enum is a barrier in each cache look-up; each update method logs exactly its own variant on every path, the replay applies the same-named "
+        "encoder operation, starts at the cursor and advances it to the log length, every query replays before its SAT calls; a private counter "
+        "allocator never coexists with n_vars()+1 allocation on a shared solver unless it follows n_vars(); re-encoding targets the attacked "
+        "argument, retires the recorded selector (unit clause + removal from the assumptions) and records the new one; slot exhaustion forces a "
+        "full rebuild on a fresh solver; assumptions are recomputed per query. NOT decided: equality with a from-scratch computation (value clause), "
+        "e.g. the cached-certificate defect D10 described in DESIGN.md is outside this family.",
+        ref="4/C08",
+    ),
+    "C09": dict(
+        technique="MIR-based static analysis: return-source analysis through the call graph (Err-capability), control-dependence of table growth on a freshness test (F4), error-before-mutation with callee summaries",
+        text="Decides that each Result-returning DynamicSolver update method can return an error at all (a body whose only return source is the "
+        "constant Ok(()) cannot report an unknown argument/attack), that encoder tables grow after AAFramework::new_argument only under a "
+        "freshness test, that the from-scratch wrapper forwards updates to the framework, and that the framework's fallible mutators fail before "
+        "mutating and ignore existing attacks. Six known findings (the buffered encoders' buffer_* functions cannot fail) are listed in "
+        "known_findings.json. NOT decided: that later answers equal those of the framework without the rejected operation.",
+        ref="4/C09",
+    ),
+    "C12": dict(
+        technique="MIR-based static analysis: who-may-mutate operation tables per field (F1), pairing (F2) and guard (F4) obligations per (mutator, invariant), error-before-mutation summaries",
+        text="Decides one structural obligation per (mutator, representation invariant) of the framework store, over all call sites and paths: label "
+        "vector append-only with tombstones, pushes only inside entry().or_insert_with with id = len, one Label::new call site and no id setter; "
+        "map ops restricted to entry/remove; removed counters incremented exactly once and only when something was removed (self-attack double "
+        "count guard); every attack push mirrored in both index lists; index vectors grow only with the argument count; no mutation before an "
+        "Err return; duplicate attack insertion guarded; iterators skip tombstones. These are necessary conditions of the set-model behaviour; "
+        "full functional correctness is not proved.",
+        ref="4/C12",
+    ),
+})
+
 NOT_APPLICABLE = {
     "C19": "Merged arguments being indistinguishable under complete semantics is a semantic fact about a propagation algorithm over all graphs; "
     "no structural necessary condition of value remains for a static rule (DESIGN.md section 4/C19).",
